@@ -44,9 +44,29 @@ async def scenario(sh: Shard, rig, r, label, ncmd):
     tr = rig.transport
     client_parms = None
 
+    async def busy_lock():
+        """Make the facade's own periodic query hold the protocol lock for longer than the protocol
+        timeout: its reply is lost once, so the command issued next waits behind a retrying request."""
+        from geckolib.config import set_config_mode
+
+        state = {"dropped": 0}
+
+        def fault(d):
+            if d.dir == "s2c" and d.verb == "WCGET" and state["dropped"] == 0:
+                state["dropped"] = 1
+                return []
+            return None
+
+        w.net.fault = fault
+        set_config_mode(any(bool(d.is_on) for d in facade.all_config_change_devices))
+        await asyncio.sleep(0.05)
+        sh.count("commands_issued_behind_a_busy_lock")
+
     async def run_cmd(desc, coro, expect):
         """expect: None (nothing may be sent) or dict describing the one command."""
         await rig.quiesce(settle=0.25)
+        if expect is not None and expect.get("verb") in ("SET", "KEY") and r.random() < 0.12:
+            await busy_lock()
         d0 = len(w.net.dgrams)
         model_before = sim.block
         ncommands0 = len(sim.sim.commands)
@@ -56,6 +76,7 @@ async def scenario(sh: Shard, rig, r, label, ncmd):
         except Exception as e:
             exc = e
         await rig.quiesce(settle=0.3)
+        w.net.fault = None
         sent = [d for d in w.net.dgrams[d0:] if d.dir == "c2s" and d.verb in CMD_VERBS]
         sh.evaluations += 1
         wit = {"scenario": label, "command": desc, "sent": [inner(d.data) for d in sent], "snapshot": rig.snapshot_name}
@@ -283,6 +304,7 @@ def main(tier, seed):
     run.need(run.counters.get("commands_checked", 0) > 300, "too few commands checked")
     run.need(run.counters.get("idempotent_calls_checked", 0) > 40, "too few already-in-state calls checked")
     run.need(run.counters.get("watercare_during_update_query_in_flight", 0) > 20, "too few watercare commands issued while the facade's own query was in flight")
+    run.need(run.counters.get("commands_issued_behind_a_busy_lock", 0) > 10, "too few commands issued while the protocol lock was held by a retrying request")
     run.need(run.counters.get("long_connection_scenarios", 0) >= 1, "the long-lived connection scenario (command counter wrap) did not run")
     for k in ("pump", "light", "eco"):
         run.need(k in run.sets.get("device_kinds", set()), f"no {k} command exercised")
